@@ -71,6 +71,11 @@ def _setup(sx, kind, V, mode, attr_weights=False):
     else:
         w = [abs(xs[a] - xs[b]) for (a, b) in E]
         arg = "length"
+        if sx.flag("mesh_carries_a_length_attribute_of_an_earlier_geometry"):
+            # lengths are those of the CURRENT geometry: an edge attribute left over from before the vertices moved must not matter
+            stale = mesh.edges.create_attribute("length", float)
+            for i in range(len(E)):
+                stale[i] = sx.real("stale%d" % i, 0)
     eid = {oracle.key2(a, b): i for i, (a, b) in enumerate(E)}
     return mesh, n, E, eid, w, arg
 
@@ -118,7 +123,19 @@ def _pick(sx, name, allowed):
     return allowed[sx.choice(name, len(allowed))] if len(allowed) > 1 else allowed[0]
 
 
+def _with_attr_shim(body):
+    def h(sx):
+        from vf.props.c05 import _install
+        undo = _install(sx)       # symbolic reals are accepted as float attribute values
+        try:
+            body(sx)
+        finally:
+            undo()
+    return h
+
+
 def single_target(kind, V, attr_weights=False, modes=(0, 1, 2), forms=(0, 1, 2), exports=(0, 1)):
+    @_with_attr_shim
     def h(sx):
         from mouette.processing import paths as P
         mode = MODES[_pick(sx, "mode", modes)]
@@ -163,6 +180,7 @@ def single_target(kind, V, attr_weights=False, modes=(0, 1, 2), forms=(0, 1, 2),
 
 
 def vertex_set(kind, V, border=False, modes=(0, 1, 2), forms=(0, 1), exports=(0, 1), max_set=None):
+    @_with_attr_shim
     def h(sx):
         from mouette.processing import paths as P
         mode = MODES[_pick(sx, "mode", modes)]
